@@ -531,7 +531,8 @@ func main() {
 			"non-trivial = the decode had to change the target. " +
 			"robustness: scenario per decode target; leaf = (prior content, length, first two bytes) with all suffixes over the alphabet enumerated inside the leaf, " +
 			"and (valid document, prior content) with all single-byte mutations enumerated inside the leaf; every input is decoded by json.Unmarshal (or by calling UnmarshalJSON directly) " +
-			"and must not panic and must leave the target unchanged when an error is returned; non-trivial = at least one input of the leaf was rejected"
+			"and must not panic and must leave the target unchanged when an error is returned; non-trivial = at least one input of the leaf was rejected. " +
+			"codec sequences (codec_seq.go): leaf = (depth 1..3, first operation), all continuations over the operation alphabet enumerated inside the leaf, each sequence run from scratch: encode results must equal the reference encoding whatever was done to earlier outputs, outputs and decoded values must not change later (outputs are fresh, inputs are not retained)"
 		r.Assumptions = []string{
 			"encoding/json is correct; for the hand-written struct its documented field-by-field decoding is the reference (fields decoded before an error keep their new value)",
 			"values whose own JSON encoding is null (nil slice, nil map, None inside Some) are excluded inside Some, as the statement says; NaN/Inf and invalid UTF-8 are excluded as not faithfully encodable",
